@@ -58,6 +58,79 @@ type pathWalker struct {
 	depth     int
 	tuple     map[ssa.Value][]optInt
 	steps     *int
+	// fork: a branch whose condition does not evaluate (it depends on input
+	// content that the rule leaves unknown) is explored on BOTH edges, each
+	// with its own copy of the bindings — a sound over-approximation of the
+	// content-dependent paths, with lengths and positions kept exact. The
+	// outcomes of all explored paths are collected in root.forkEnds; oob and
+	// oobAt record the first out-of-range index or slice expression on any path.
+	fork     bool
+	root     *pathWalker
+	forkEnds []string
+	nForks   int
+	cutoffs  int
+	forkCount map[ssa.Instruction]int
+	oobAt    ssa.Instruction
+	// onLoad lets the rule supply the value of a load the walker cannot
+	// resolve from tracked state (e.g. a byte of the modelled input)
+	onLoad func(w *pathWalker, u *ssa.UnOp) (int64, bool)
+	// rule side tables that must follow the path (cloned on fork)
+	off map[ssa.Value]int64
+	cls map[ssa.Value]string
+}
+
+func (w *pathWalker) rootW() *pathWalker {
+	if w.root != nil {
+		return w.root
+	}
+	return w
+}
+
+func (w *pathWalker) markOOB(at ssa.Instruction) {
+	r := w.rootW()
+	w.oob = true
+	if !r.oob || r.oobAt == nil {
+		r.oob = true
+		r.oobAt = at
+	}
+}
+
+func (w *pathWalker) clone() *pathWalker {
+	c := *w
+	c.root = w.rootW()
+	c.env = newEnv()
+	for k, v := range w.env.vals {
+		c.env.vals[k] = v
+	}
+	c.state = map[string]int64{}
+	for k, v := range w.state {
+		c.state[k] = v
+	}
+	if w.tuple != nil {
+		c.tuple = map[ssa.Value][]optInt{}
+		for k, v := range w.tuple {
+			c.tuple[k] = v
+		}
+	}
+	if w.off != nil {
+		c.off = map[ssa.Value]int64{}
+		for k, v := range w.off {
+			c.off[k] = v
+		}
+	}
+	if w.cls != nil {
+		c.cls = map[ssa.Value]string{}
+		for k, v := range w.cls {
+			c.cls[k] = v
+		}
+	}
+	c.events = append([]string(nil), w.events...)
+	c.forkEnds = nil
+	c.forkCount = map[ssa.Instruction]int{}
+	for k, v := range w.forkCount {
+		c.forkCount[k] = v
+	}
+	return &c
 }
 
 type optInt struct {
@@ -70,6 +143,7 @@ func (w *pathWalker) inlineCall(call *ssa.Call, callee *ssa.Function) string {
 		env: newEnv(), state: map[string]int64{}, absVal: w.absVal, onCall: w.onCall, onStore: w.onStore,
 		assumeErrNil: w.assumeErrNil, lengths: w.lengths, maxSteps: w.maxSteps, onSlice: w.onSlice, onPhi: w.onPhi,
 		inline: w.inline, onInline: w.onInline, onReturn: w.onReturn, onExtract: w.onExtract, depth: w.depth + 1,
+		onLoad: w.onLoad, off: w.off, cls: w.cls, root: w.rootW(),
 	}
 	args := call.Call.Args
 	for i, p := range callee.Params {
@@ -176,9 +250,45 @@ func (w *pathWalker) walk(b, pred *ssa.BasicBlock) string {
 			switch x := in.(type) {
 			case *ssa.UnOp:
 				if x.Op == token.MUL {
+					bound := false
 					if p := w.path(x.X); p != "" {
 						if n, ok := w.state[p]; ok {
 							w.env.bind(x, n)
+							bound = true
+						}
+					}
+					if !bound && w.onLoad != nil {
+						if n, ok := w.onLoad(w, x); ok {
+							w.env.bind(x, n)
+						} else if w.fork {
+							delete(w.env.vals, x)
+						}
+					}
+				}
+			case *ssa.Lookup:
+				// s[i] on a string represented by its length
+				if w.lengths && !x.CommaOk {
+					if _, isMap := x.X.Type().Underlying().(*types.Map); !isMap {
+						if k, ok := w.env.eval(x.Index); ok {
+							if L, isB := w.env.vals[x.X]; isB && (k < 0 || k >= L) {
+								w.markOOB(x)
+							}
+						}
+					}
+				}
+			case *ssa.IndexAddr:
+				if w.lengths {
+					if k, ok := w.env.eval(x.Index); ok {
+						L, known := int64(0), false
+						if pt, isP := x.X.Type().Underlying().(*types.Pointer); isP {
+							if a, isA := pt.Elem().Underlying().(*types.Array); isA {
+								L, known = a.Len(), true
+							}
+						} else if v, isB := w.env.vals[x.X]; isB {
+							L, known = v, true
+						}
+						if known && (k < 0 || k >= L) {
+							w.markOOB(x)
 						}
 					}
 				}
@@ -301,6 +411,37 @@ func (w *pathWalker) walk(b, pred *ssa.BasicBlock) string {
 				if !ok && w.assumeErrNil {
 					n, ok = errNilCond(x.Cond)
 				}
+				if !ok && w.fork {
+					r := w.rootW()
+					// widening: a branch that has already been left undecided three
+					// times on this path (a loop over input of unknown length) is not
+					// unrolled further; the path is recorded as cut off
+					if w.forkCount == nil {
+						w.forkCount = map[ssa.Instruction]int{}
+					}
+					if w.forkCount[x] >= 3 {
+						r.cutoffs++
+						return "cutoff"
+					}
+					w.forkCount[x]++
+					r.nForks++
+					if r.nForks > 4000 {
+						w.why = "fork bound exceeded"
+						return "undecided"
+					}
+					for i, succ := range b.Succs {
+						_ = i
+						ch := w.clone()
+						end := ch.walk(succ, b)
+						if end != "forked" {
+							r.forkEnds = append(r.forkEnds, end)
+							if end == "undecided" && r.why == "" {
+								r.why = ch.why
+							}
+						}
+					}
+					return "forked"
+				}
 				if !ok {
 					w.why = fmt.Sprintf("branch condition %s does not evaluate over the finite domain", x.Cond.String())
 					return "undecided"
@@ -420,17 +561,23 @@ func (w *pathWalker) sliceLen(x *ssa.Slice) (int64, bool) {
 			return 0, false
 		}
 	}
-	if hi < lo {
-		w.oob = true
+	if hi < lo || lo < 0 {
+		w.markOOB(x)
 	}
 	// upper bound check against the operand
 	if p, ok := x.X.Type().Underlying().(*types.Pointer); ok {
 		if a, ok := p.Elem().Underlying().(*types.Array); ok && hi > a.Len() {
-			w.oob = true
+			w.markOOB(x)
 		}
 	} else if v, ok := w.env.vals[x.X]; ok && hi > v {
 		// reslicing beyond the length is legal up to cap; flagged, the rule decides
 		w.beyondLen = true
+		if r := w.rootW(); !r.beyondLen {
+			r.beyondLen = true
+			if r.oobAt == nil {
+				r.oobAt = x
+			}
+		}
 	}
 	return hi - lo, true
 }
